@@ -139,6 +139,24 @@ def r13_9(chk, facts):
         if not problems: chk.ok('R13.9', site, {'effects': len(sa)})
         else: chk.fail('R13.9', site, fa[0]['file'], fa[0]['l'], '; '.join(problems), None, fa[0]['q'])
 
+def r13_10(chk, facts):
+    """sort() and sort_by() keep the relative order of equal elements."""
+    chk.rule('R13.10', 'stable sorting: every sort call in the JMESPath function library is std::stable_sort (sort and sort_by leave elements that '
+                       'compare equal in their original order; with std::sort the result of sort_by on equal keys is unspecified)', floor=3)
+    n = 0; seen = set()
+    for fn in facts.functions:
+        if fn.get('body') is None or fn.get('dep') or not fn['file'].endswith('jmespath/jmespath.hpp'): continue
+        for c in A.calls_in(fn['body']):
+            if c.get('k') != 'CallExpr' or A.callee_name(c) not in ('sort', 'stable_sort', 'partial_sort', 'nth_element') or not (c.get('cq') or '').startswith('std::'): continue
+            if (fn['file'], c.get('l')) in seen: continue
+            seen.add((fn['file'], c.get('l'))); n += 1
+            chk.analysed(fn)
+            site = U.site(fn, 'sort call at line %s' % c.get('l'))
+            if A.callee_name(c) == 'stable_sort': chk.ok('R13.10', site, None)
+            else: chk.fail('R13.10', site, fn['file'], c.get('l'), '%s sorts with std::%s: elements with equal keys may change their relative order' % (
+                A.strip_targs(fn.get('cls') or fn['n']).split('::')[-1], A.callee_name(c)), None, fn['q'])
+    chk.require(n >= 3, 'R13.10: only %d sort calls found in jmespath.hpp' % n)
+
 def run(chk, tier, only_rule=None):
     chk.explanation = EXPLANATION
     chk.not_decided = NOT_DECIDED
@@ -328,6 +346,10 @@ def run(chk, tier, only_rule=None):
     r13_6(chk, facts)
     r13_7(chk, facts)
     r13_9(chk, facts)
+    r13_10(chk, facts)
+    # length(), reverse() and the comparison of strings go through the UTF-8 decoder
+    from . import c02
+    c02.r02_9(chk, F.load(['core'], tier), rid='R02.9')
     c05.r05_5(chk, tier)
     from . import c12
     c12.r12_3(chk, tier, units=('jmespath',))
